@@ -249,6 +249,8 @@ class kMinPathErrorCycles(walkmodel.AbstractWalkModelDiGraph):
         # If we get subset constraints, and the coverage fraction is 1
         # then we know their edges must appear in the solution, so we add their edges to the trusted edges for safety
         if self.subset_constraints is not None:
+            # The constraints are used below, before the base class gets to validate them
+            self._check_valid_subset_constraints()
             if self.subset_constraints_coverage == 1.0:
                 for constraint in self.subset_constraints:
                     # Convert to set if it's a list
